@@ -359,6 +359,8 @@ def examine(ck, outp, mo, st, stream):
             st.how[how.split(' ')[0] if stream == 'gen' else 'corpus'] += 1
             if stream == 'gen' and ' ' in how:
                 st.how['C<-' + how.split(' ')[1]] += 1
+                for extra in how.split(' ')[2:]:
+                    st.how['+' + extra] += 1
             tot = 0
             for t in trees:
                 count_kinds(t, st.kinds)
@@ -404,7 +406,182 @@ def report(ck, exe_desc, oracle_bad, corr_bad, truncated, abort_text, stream_cmd
                           'stream': stream_cmd}, found_input=False)
 
 
+# ------------------------------------------------------------------ coverage mode (VERIF_COVERAGE=1)
+ANCHOR_FILES = ['src/expr.cc', 'include/mp/expr.h', 'include/mp/basic-expr-visitor.h', 'include/mp/utils-hash.h',
+                'include/mp/common.h']
+MECH = ('ExprComparator', 'ExprHasher', 'mp::Equal', 'hash<mp::', 'HashCombine')
+
+
+def anchor_cov():
+    """figures of the last VERIF_COVERAGE=1 run (committed file; not recomputed in the normal tiers)"""
+    try:
+        js = json.load(open(os.path.join(VERIF, 'design_notes', 'coverage', 'C18.json')))
+        return {'anchor_line_cov': js['anchor_line_cov'], 'anchor_branch_cov': js['anchor_branch_cov'],
+                'anchor_cov_note': 'gcov over anchors.files, quick stream; mechanism functions (ExprComparator, ExprHasher, Equal, hash, HashCombine): %d functions / %d lines / %d non-exception branches not covered; Lean model arms taken %d of %d' % (
+                    js['mechanism_functions_never_executed'], js['mechanism_lines_never_executed'], js['mechanism_branches_never_taken'], js['model_arms_taken'], js['model_arms'])}
+    except Exception:
+        return {}
+
+
+def run_coverage(ck):
+    """gcov build of the harness + src/expr.cc, quick-tier stream, per-anchor line/branch coverage and the
+    uncovered parts of the mechanism functions -> design_notes/coverage/C18.{md,json}"""
+    import gzip, shutil
+    d = os.path.join(BUILD, 'cov', 'c18')
+    shutil.rmtree(d, ignore_errors=True)
+    os.makedirs(d)
+    srcs = [os.path.join(VERIF, 'harness', 'h_expr.cc'), os.path.join(REPO, 'src', 'expr.cc'),
+            os.path.join(REPO, 'src', 'format.cc'), expr_info_source(ck)]
+    inc = ['-I' + os.path.join(REPO, 'include'), '-I' + os.path.join(REPO, 'src'), '-I' + os.path.join(VERIF, 'harness')]
+    defs = ['-DMP_DATE=20240320', '-DMP_SYSINFO="Linux x86_64"', '-DMP_USE_ATOMIC', '-DMP_USE_HASH', '-DMP_USE_UNIQUE_PTR']
+    objs = []
+    for sname in srcs:
+        o = os.path.join(d, os.path.basename(sname).replace('.', '_') + '.o')
+        rc, out, err = sh(['g++', '-std=c++17', '-w', '-O0', '-g', '--coverage'] + defs + inc + ['-c', sname, '-o', o], timeout=900)
+        if rc != 0:
+            raise RuntimeError('coverage compile failed: ' + err[-2000:])
+        objs.append(o)
+    exe = os.path.join(d, 'h_expr_cov')
+    rc, out, err = sh(['g++', '--coverage'] + objs + ['-o', exe], timeout=300)
+    if rc != 0:
+        raise RuntimeError('coverage link failed: ' + err[-2000:])
+    env = dict(os.environ, C18_NOFORK='1', C18_TRIPLES=os.environ.get('C18_COV_TRIPLES', '10000'))
+    n_lines = 0
+    drv = ck.driver('drv_c18')
+    arm_counts = collections.Counter()
+    bad_trace = 0
+    for args in [['file', c] for c in sorted(glob.glob(os.path.join(VERIF, 'corpus', 'C18', '*.txt')))] + [['gen', 'quick', str(ck.seed)]]:
+        p = subprocess.run([exe] + args, stdout=subprocess.PIPE, stderr=subprocess.PIPE, text=True, env=env)
+        n_lines += p.stdout.count('\nP ')
+        q = subprocess.run([drv, '--arms'], input=p.stdout, stdout=subprocess.PIPE, text=True)
+        for l_in, l_out in zip(p.stdout.split('\n'), q.stdout.split('\n')):
+            if l_in.startswith('P '):
+                if l_out in ('bad-trace', 'bad-op'):
+                    bad_trace += 1
+                for a in l_out.split():
+                    arm_counts[a] += 1
+        if p.returncode != 0:
+            ck.log('coverage run %s exited %d: %s' % (args, p.returncode, p.stderr[-300:]))
+    # merge gcov JSON of the two TUs that instantiate the anchored code
+    files = {}
+    for o in objs[:2]:
+        rc, out, err = sh(['gcov-12', '-b', '-c', '-j', '-t', '-o', d, o], cwd=d, timeout=600)
+        for doc in out.split('\n'):
+            doc = doc.strip()
+            if not doc.startswith('{'):
+                continue
+            for f in json.loads(doc).get('files', []):
+                rel = os.path.relpath(os.path.realpath(f['file'] if os.path.isabs(f['file']) else os.path.join(d, f['file'])), os.path.realpath(REPO))
+                if rel not in ANCHOR_FILES:
+                    continue
+                ent = files.setdefault(rel, {'lines': {}, 'funcs': {}})
+                for fn in f['functions']:
+                    k = (fn['demangled_name'], fn['start_line'])
+                    e = ent['funcs'].setdefault(k, {'count': 0, 'end': fn['end_line']})
+                    e['count'] += fn['execution_count']
+                for l in f['lines']:
+                    e = ent['lines'].setdefault(l['line_number'], {'count': 0, 'br': {}, 'fn': set()})
+                    e['count'] += l['count']
+                    if l.get('function_name'):
+                        e['fn'].add(l['function_name'])
+                    # branches are per instantiation: keep them apart by function
+                    key = l.get('function_name', '')
+                    br = e['br'].setdefault(key, [[0, b.get('throw', False)] for b in l['branches']])
+                    if len(br) == len(l['branches']):
+                        for i, b in enumerate(l['branches']):
+                            br[i][0] += b['count']
+    summary = {}
+    md = ['# C18 — coverage of the anchored code by the quick-tier stream', '',
+          'Measured with `VERIF_COVERAGE=1 ./check C18` (g++ -O0 --coverage build of harness/h_expr.cc + src/expr.cc, corpus + quick',
+          'generator stream at seed %d, %d observation lines, forks disabled; gcov-12 -b -c, merged over the two TUs; branch' % (ck.seed, n_lines),
+          'figures exclude exception edges).', '',
+          '| file | lines hit / instrumented | line % | branches taken / total | branch % |', '|---|---|---|---|---|']
+    tot = [0, 0, 0, 0]
+    mech_unc_funcs, mech_unc_br, mech_unc_lines = [], [], []
+    import subprocess as sp
+    for rel in ANCHOR_FILES:
+        ent = files.get(rel)
+        if not ent:
+            md.append('| %s | (nothing instrumented: no executable code reaches these TUs) | | | |' % rel)
+            summary[rel] = None
+            continue
+        lh = sum(1 for l in ent['lines'].values() if l['count'] > 0)
+        lt = len(ent['lines'])
+        bh = bt = 0
+        for ln, l in sorted(ent['lines'].items()):
+            for key, br in l['br'].items():
+                for i, (c, thr) in enumerate(br):
+                    if thr:
+                        continue
+                    bt += 1
+                    bh += 1 if c > 0 else 0
+        md.append('| %s | %d / %d | %.1f | %d / %d | %.1f |' % (rel, lh, lt, 100.0 * lh / max(lt, 1), bh, bt, 100.0 * bh / max(bt, 1)))
+        summary[rel] = {'lines_hit': lh, 'lines': lt, 'branches_taken': bh, 'branches': bt}
+        tot = [tot[0] + lh, tot[1] + lt, tot[2] + bh, tot[3] + bt]
+        # mechanism functions
+        src_lines = open(os.path.join(REPO, rel)).read().split('\n')
+        for (name, start), fn in sorted(ent['funcs'].items(), key=lambda x: (x[0][1], x[0][0])):
+            if not any(m in name for m in MECH):
+                continue
+            if fn['count'] == 0:
+                mech_unc_funcs.append('%s:%d %s' % (rel, start, name))
+        for ln, l in sorted(ent['lines'].items()):
+            for key, br in l['br'].items():
+                dem = key
+                if not any(m in key for m in ('ExprComparator', 'ExprHasher', 'Equal', 'HashCombine', '4hash')):
+                    continue
+                if all(c == 0 for c, _ in br):
+                    continue   # line not executed at all in this instantiation: reported as line/function
+                for i, (c, thr) in enumerate(br):
+                    if not thr and c == 0:
+                        mech_unc_br.append('%s:%d branch %d never taken in %s | `%s`' % (rel, ln, i, key, src_lines[ln - 1].strip()[:90]))
+            if l['count'] == 0 and any(any(m in f for m in ('ExprComparator', 'ExprHasher', 'Equal', 'HashCombine', '4hash')) for f in l['fn']):
+                mech_unc_lines.append('%s:%d `%s`' % (rel, ln, src_lines[ln - 1].strip()[:100]))
+    md.append('| **all anchored files** | %d / %d | %.1f | %d / %d | %.1f |' % (tot[0], tot[1], 100.0 * tot[0] / max(tot[1], 1), tot[2], tot[3], 100.0 * tot[2] / max(tot[3], 1)))
+    # demangle mangled function keys for readability
+    def dem(txt):
+        names = set(re.findall(r'_Z\w+', txt))
+        if not names:
+            return txt
+        p = sp.run(['c++filt'], input='\n'.join(sorted(names)), capture_output=True, text=True)
+        for a, b in zip(sorted(names), p.stdout.split('\n')):
+            txt = txt.replace(a, b)
+        return txt
+    md += ['', '## Mechanism functions never executed (ExprComparator / ExprHasher / mp::Equal / std::hash<mp::Expr> / HashCombine)', '']
+    md += ['* ' + x for x in mech_unc_funcs] or ['(none)']
+    md += ['', '## Lines inside executed mechanism functions never executed', '']
+    md += ['* ' + dem(x) for x in mech_unc_lines] or ['(none)']
+    md += ['', '## Branches inside executed mechanism lines never taken (exception edges excluded)', '']
+    md += ['* ' + dem(x) for x in mech_unc_br] or ['(none)']
+    # arms of the Lean model (labels are the string literals of lean/MpVerif/C18/Trace.lean)
+    tr = open(os.path.join(LEAN, 'MpVerif', 'C18', 'Trace.lean')).read()
+    all_arms = set()
+    for m in re.finditer(r'(ofB )?"((?:equalX|equalList|equalArgs|plPairs|hashX|hashList|and)\.[^"]*)"', tr):
+        lab = m.group(2).replace(' ', '_')
+        all_arms |= {lab + '.true', lab + '.false'} if m.group(1) else {lab}
+    never = sorted(all_arms - set(arm_counts))
+    md += ['', '## Arms of the Lean model taken by the same stream (`drv_c18 --arms`; observation lines on which the arm is taken)', '',
+           '%d arms, %d taken, %d lines on which the instrumented copy disagreed with the model function.' % (len(all_arms), len(all_arms) - len(never), bad_trace), '',
+           '| arm | lines |', '|---|---|']
+    md += ['| %s | %d |' % (a, arm_counts.get(a, 0)) for a in sorted(all_arms)]
+    md += ['', 'Never taken: ' + (', '.join(never) or '(none)')]
+    os.makedirs(os.path.join(VERIF, 'design_notes', 'coverage'), exist_ok=True)
+    open(os.path.join(VERIF, 'design_notes', 'coverage', 'C18.measured.md'), 'w').write('\n'.join(md) + '\n')
+    js = {'anchor_line_cov': round(100.0 * tot[0] / max(tot[1], 1), 1), 'anchor_branch_cov': round(100.0 * tot[2] / max(tot[3], 1), 1),
+          'per_file': summary, 'observation_lines': n_lines, 'seed': ck.seed,
+          'mechanism_functions_never_executed': len(mech_unc_funcs), 'mechanism_lines_never_executed': len(mech_unc_lines),
+          'mechanism_branches_never_taken': len(mech_unc_br),
+          'model_arms': len(all_arms), 'model_arms_taken': len(all_arms) - len(never), 'model_arms_never_taken': never}
+    json.dump(js, open(os.path.join(VERIF, 'design_notes', 'coverage', 'C18.json'), 'w'), indent=1)
+    ck.log('coverage: lines %.1f%% branches %.1f%%; mechanism: %d functions, %d lines, %d branches uncovered' %
+           (js['anchor_line_cov'], js['anchor_branch_cov'], len(mech_unc_funcs), len(mech_unc_lines), len(mech_unc_br)))
+    ck.cov.update({'anchor_line_cov': js['anchor_line_cov'], 'anchor_branch_cov': js['anchor_branch_cov'], 'evaluations': n_lines,
+                   'coverage_mode': True})
+
+
 def run(ck):
+    if os.environ.get('VERIF_COVERAGE') == '1':
+        return run_coverage(ck)
     n_thm = 18
     proof_ok, failing = ck.proof_stage('MpVerif.C18.Props', 'MpVerif/C18/Props.lean', 'C18_',
                                        ['MpVerif/C18/*.lean'], expect_min=n_thm)
@@ -470,6 +647,7 @@ def run(ck):
         'tree_sizes': dict(st.sizes), 'tree_depths': {str(k): v for k, v in sorted(st.depths.items())},
         'equal_pairs_with_different_descriptions': st.pairs_equal_distinct_bits,
         'build_variants': [v for v, _, _ in variants],
+        **anchor_cov(),
     })
     missing = [k for k in st.kind_codes if k not in st.kinds]
     if missing:
